@@ -15,7 +15,10 @@ in program order, the three `possible_correction` vectors, their weights and the
 `dec.xcube.struct Lx Ly Lz <deformation axis|none> px py pz dict`: the sub-problem structure built
 by `__init__`.
 
-`list(set)` order: ascending (CPython, at most four small ints below 8; the harness uses sides ≤ 4).
+`list(set)` order: ascending (CPython, at most four small ints below 8: every side ≤ 4) unless the
+optional last token `orders` (`9,1,3/5,7` …: the `list(nodes_in_component)` values the harness
+recorded from CPython, used for sides ≥ 5 where a plane index ≥ 8 wraps in the set's hash table)
+lists the set: the model is parametric in `order` and the theorems hold for every `order`.
 -/
 namespace Drv
 
@@ -59,15 +62,26 @@ def xcDefaultCfg (er : Rat) : BpCfg :=
 
 def xcParseDeform (s : String) : Option String := if s == "none" then none else some s
 
-def xcubeHistory (D : Dict) (T : Table) (d : XCubeDec Rat) : BpSt → List Vec → List String
+/-- recorded `list(set)` orders: `a,b/c,d,e` -/
+def parseOrders (s : String) : List (List Int) :=
+  if s == "-" then [] else (s.splitOn "/").map fun c => (c.splitOn ",").filterMap fun t => t.toInt?
+
+/-- `list(set)` as recorded (same elements), ascending when the set was not recorded -/
+def recordedOrder (tab : List (List Int)) (l : List Int) : List Int :=
+  match tab.find? (fun o => ascending o == ascending l) with
+  | some o => o
+  | none => ascending l
+
+def xcubeHistory (D : Dict) (T : Table) (d : XCubeDec Rat) (order : List Int → List Int) :
+    BpSt → List Vec → List String
   | _, [] => []
   | st, s :: rest =>
     let S : BpSolver := { decode := fun m _ p s => tableSolve D T m p s,
                           converged := fun _ _ _ _ => true }
-    let r := d.decode (tableSolve D T) S id ascending st s
+    let r := d.decode (tableSolve D T) S id order st s
     (showEvents D r.2.events ++ "=>" ++ (match r.2.val with
       | .ok c => showVec c
-      | .error e => showXErr e) ++ "~~" ++ showTraces r.2.trace) :: xcubeHistory D T d r.1 rest
+      | .error e => showXErr e) ++ "~~" ++ showTraces r.2.trace) :: xcubeHistory D T d order r.1 rest
 
 def showMatcher (D : Dict) (m : Option (Matcher Rat)) : String :=
   match m with
@@ -81,7 +95,15 @@ def handleXCube : List String → Option String
     some (match XCubeDec.new (fun p => p) lx.toNat! ly.toNat! lz.toNat! (xcParseDeform df)
         (dec_parseRats px) (dec_parseRats py) (dec_parseRats pz) (xcDefaultCfg (dec_parseRat er)) with
       | .error e => showXErr e
-      | .ok d => joinCalls (xcubeHistory D T d BpSt.init ((parseList ";" syns).map parseVec)))
+      | .ok d => joinCalls (xcubeHistory D T d ascending BpSt.init ((parseList ";" syns).map parseVec)))
+  | ["dec.xcube", lx, ly, lz, df, px, py, pz, er, dict, table, syns, orders] =>
+    let D := parseDict dict
+    let T := parseTable table
+    some (match XCubeDec.new (fun p => p) lx.toNat! ly.toNat! lz.toNat! (xcParseDeform df)
+        (dec_parseRats px) (dec_parseRats py) (dec_parseRats pz) (xcDefaultCfg (dec_parseRat er)) with
+      | .error e => showXErr e
+      | .ok d => joinCalls (xcubeHistory D T d (recordedOrder (parseOrders orders)) BpSt.init
+          ((parseList ";" syns).map parseVec)))
   | ["dec.xcube.struct", lx, ly, lz, df, px, py, pz, dict] =>
     let D := parseDict dict
     some (match XCubeDec.new (fun p => p) lx.toNat! ly.toNat! lz.toNat! (xcParseDeform df)
